@@ -52,6 +52,7 @@ Plan_reg == <<{"dimensionality", "defunit", "unitless"}>>
 Plan_derived == <<{"derived", "roundtrip"}>>
 Plan_help3 == <<{"convert"}, {"scale"}, {"helper"}>>
 Plan_help2 == <<{"convert", "scale"}, {"helper"}>>
+Plan_plain == <<{"plain"}>>
 Plan_bexp == <<{"bexp"}>>
 Plan_inv2 == <<{"convert", "via", "scale", "incompatible", "dimensionality"},
                {"convert", "back", "scale", "container", "unitless", "defunit", "derived", "roundtrip", "bexp", "helper"}>>
